@@ -872,7 +872,7 @@ srctie.wire(globals(), 'C17')
 
 # --- deep theorems (Rounding3)
 PROOF_MODULES = PROOF_MODULES + ['Compute.Lemmas.LogRounding', 'Compute.Props.Rounding3']
-REQUIRED_THEOREMS = REQUIRED_THEOREMS + ['Cv.Rounding3.softmax_sum_error', 'Cv.Rounding3.softmax_entry_near', 'Cv.Rounding3.logistic_error', 'Cv.Rounding3.logistic_range', 'Cv.Rounding3.f64_softmax_note', 'Cv.Rounding3.f64_logistic_note']
+REQUIRED_THEOREMS = REQUIRED_THEOREMS + ['Cv.Rounding3.softmax_sum_error', 'Cv.Rounding3.softmax_entry_near', 'Cv.Rounding3.logistic_error', 'Cv.Rounding3.logistic_range', 'Cv.Rounding3.stdmodel_softmax_note', 'Cv.Rounding3.stdmodel_logistic_note']
 NOT_PROVED = [x for x in NOT_PROVED if not any(k in str(x) for k in ('floating-point rounding of the transforms',))]
 NOT_PROVED = NOT_PROVED + ['rounding of logit and Box-Cox (oracle only); for softmax and logistic the float-level claims ARE proved in the standard model with libm exp/ln of relative error <= u_f (Props/Rounding3): every computed softmax entry > 0 and |sum - 1| <= gamma_(n+1), entries within an explicit factor of the exact ones, logistic in (0,1] with relative error <= gamma_2 + gamma^f_1']
 
@@ -895,3 +895,8 @@ _FLOAT_ENTRY = (
     "u_f |logit p| + (1+u_f) gamma_2 for 0 < p < 1, Box-Cox within gamma_2 |bc| + (1+gamma_2) u_f x^lambda/|lambda|; the endpoints p = 0, 1 "
     "of logit (infinite results) are oracle only")
 NOT_PROVED = [(_FLOAT_ENTRY if ("standard model" in str(x) and "softmax" in str(x)) else x) for x in NOT_PROVED]
+
+# --- review repairs in the Rounding layer (renamed stdmodel_* theorems, underflow-aware variants, genuine FlModel instance; wired by the lead)
+PROOF_MODULES = PROOF_MODULES + [m for m in ['Compute.Lemmas.FlModelGrid', 'Compute.Props.RoundingGrid'] if m not in PROOF_MODULES]
+REQUIRED_THEOREMS = REQUIRED_THEOREMS + [t for t in ['Cv.Rounding3U.logistic_range_ufl', 'Cv.Rounding3U.softmax_sum_error_ufl', 'Cv.FlModel.grid_abs_sub_le', 'Cv.FlModel.grid_idem', 'Cv.FlModel.grid_mono', 'Cv.FlModel.grid_rnd_one', 'Cv.FlModel.grid_rnd_natCast', 'Cv.FlModel.grid_rnd_dyadic', 'Cv.FlModel.f64grid_u', 'Cv.FlModel.f64grid_mono'] if t not in REQUIRED_THEOREMS]
+NOT_PROVED = list(NOT_PROVED) + ['theorems named stdmodel_* hold in the idealised standard model (fl(x) = x(1+d) for every operation, library functions with relative error <= u_f for every argument) at u = 2^-53; they describe binary64 only where nothing overflows or underflows (for exp: arguments in [-708.39, 709.78]); outside that range computed values may be exactly 0 or inf', 'under ExpLnUfl (exp computed as e^x(1+d)+eta, underflow allowed) logistic, softmax, RBF and RQ values are proved in [0,1] resp. >= 0 (namespace Rounding3U); strict positivity is a theorem of the no-underflow model only; logistic(800) = 1 and an RBF value of exactly 0 are exhibited', 'FlModel has a genuine instance, FlModel.grid p (radix 2, p digits, round to nearest, unbounded exponent; f64grid has u = 2^-53), proved to satisfy the standard model and to be idempotent and monotone, with integers <= 2^p and dyadics exact (Lemmas/FlModelGrid); headline rounding theorems are instantiated on it (Props/RoundingGrid); overflow and underflow remain outside the model']
